@@ -5,7 +5,7 @@
 cd /verif
 P=${1:-2}
 ls -d seeded/C*/ | sed 's#seeded/##; s#/##' | xargs -P "$P" -I{} sh -c '
-  id={}; prop=${id%-*}; [ "$id" = "C20-F" ] && prop=C02; [ "$id" = "C01-G" ] && prop=C08; [ "$id" = "C02-H" ] && prop=C08
+  id={}; prop=${id%-*}; [ "$id" = "C20-F" ] && prop=C02; [ "$id" = "C01-G" ] && prop=C08; [ "$id" = "C02-H" ] && prop=C08; [ "$id" = "C09-I" ] && prop=C17
   full=$(tools/try_seed.sh /verif/seeded/$id/patch.diff $prop 2>&1)
   out=$(echo "$full" | grep -m1 "^== ")
   case "$out" in *"rc=2"*) echo "$full" > /tmp/regress-trouble-$id.log;; esac
